@@ -193,7 +193,15 @@ impl Method for PhoneticMethod {
                 return Suggestion::empty();
             }
 
-            self.create_suggestion(data, config)
+            let suggestion = self.create_suggestion(data, config);
+
+            // Nothing is left to show (only an escape character remained),
+            // so the input session has ended.
+            if suggestion.is_empty() {
+                self.buffer.clear();
+            }
+
+            suggestion
         } else {
             Suggestion::empty()
         }
